@@ -1,6 +1,6 @@
 (** C17 — Timeseries converters keep the information they claim to keep. *)
 From Yata Require Import Base.Prelude Base.Num Base.NumR Core.Window Core.Candle Spec.Hist Spec.MethodDefs
-  Methods.Basic Methods.Convert Proofs.ConvertProofs Proofs.Recursive.
+  Methods.Basic Methods.Convert Proofs.ConvertProofs Proofs.Recursive Proofs.ConvertProofs2.
 From Coq Require Import Reals.
 Open Scope Z_scope.
 
@@ -17,6 +17,10 @@ Open Scope R_scope.
 Theorem C17_heikin_ashi (c0 : candle (N := NumR)) cs c :
   snd (ha_next (steps ha_next (ha_new c0) cs) c) = ha_def c0 (rev cs) c.
 Proof. exact (ha_correct c0 cs c). Qed.
+(** ... and it outputs a valid candle whenever the construction candle and every input are valid, after any stream *)
+Theorem C17_heikin_ashi_valid (c0 : candle (N := NumR)) cs c : c_validate c0 = true -> Forall (fun k => c_validate k = true) (cs ++ [c]) ->
+  c_validate (snd (ha_next (steps ha_next (ha_new c0) cs) c)) = true.
+Proof. exact (ha_model_valid c0 cs c). Qed.
 Theorem C17_renko_emits_iff (s : renko (N := NumR)) c :
   (0 < ro_len (snd (renko_next s c)))%Z <->
   (rk_next_upper s <= c_source c (rk_src s) \/ c_source c (rk_src s) <= rk_next_lower s).
